@@ -4,6 +4,7 @@ import (
 	"crypto/x509/pkix"
 	"encoding/asn1"
 	"errors"
+	"time"
 
 	"github.com/wokdav/gopki/generator/cert"
 )
@@ -112,4 +113,66 @@ func vhMergeDiff() {
 		vAssert(content.Extensions[i].(vExt).ID == contBefore[i].(vExt).ID, "Merge reordered the certificate's extensions")
 	}
 	vAssert(out.Alias == "c", "Merge lost the alias")
+}
+
+// vhMergeFrame: C08, "Merging has no effect on anything else": every field of
+// the certificate configuration other than the validity and the extension
+// list - alias, serial, both unique ids (symbolic bytes, present / empty /
+// absent independently), profile name, subject, issuer, key and signature
+// algorithm, all six manipulations - comes out of Merge exactly as it went
+// in, and the input itself is not modified.
+func vhMergeFrame() {
+	uid := func(name string) asn1.BitString {
+		switch vChoose(name+".kind", 3) {
+		case 1:
+			return asn1.BitString{Bytes: []byte{}, BitLength: 0}
+		case 2:
+			n := vChoose(name+".len", 2) + 1
+			return asn1.BitString{Bytes: vBytes(name+".bytes", n), BitLength: 8 * n}
+		}
+		return asn1.BitString{}
+	}
+	ver := int(vByte("version"))
+	content := CertificateContent{
+		Alias: "a", SerialNumber: vInt64("serial", 0, 9223372036854775807), IssuerUniqueId: uid("iuid"), SubjectUniqueId: uid("suid"),
+		Profile: "p", Subject: pkix.RDNSequence{pkix.RelativeDistinguishedNameSET{pkix.AttributeTypeAndValue{Type: asn1.ObjectIdentifier{2, 5, 4, 3}, Value: "x"}}},
+		Issuer: "root", KeyAlgorithm: cert.KeyAlgorithm(vInt("keyalg", 0, 13)), SignatureAlgorithm: cert.SignatureAlgorithm(vInt("sigalg", 0, 7)),
+	}
+	if vChoose("manipulations", 2) == 1 {
+		content.Manipulations = Manipulations{Version: &ver, SignatureValue: &asn1.BitString{Bytes: vBytes("sigval", 2), BitLength: 16},
+			TbsPublicKey:       &asn1.BitString{Bytes: vBytes("pubbits", 2), BitLength: 16},
+			SignatureAlgorithm: &pkix.AlgorithmIdentifier{Algorithm: asn1.ObjectIdentifier{1, 2, 3}}}
+	}
+	in := content // shallow copy for the frame check on the input (slices share memory: compare content)
+	iu := append([]byte{}, content.IssuerUniqueId.Bytes...)
+	su := append([]byte{}, content.SubjectUniqueId.Bytes...)
+	prof := CertificateProfile{Name: "p"}
+	if vChoose("profileValidity", 2) == 1 {
+		prof.Validity = CertificateValidity{From: time.Unix(100, 0), Until: time.Unix(200, 0), IsSet: true, IsStatic: true}
+	}
+	out, err := Merge(prof, content)
+	vAssert(err == nil && out != nil, "Merge failed")
+	if err != nil || out == nil {
+		return
+	}
+	vReach("merged")
+	same := func(a, b asn1.BitString, msg string) {
+		vAssert((a.Bytes == nil) == (b.Bytes == nil), msg+" (configured vs. absent)")
+		vAssert(len(a.Bytes) == len(b.Bytes) && a.BitLength == b.BitLength, msg+" (length)")
+		if len(a.Bytes) == len(b.Bytes) {
+			vAssert(vBytesEq(a.Bytes, b.Bytes), msg)
+		}
+	}
+	same(out.IssuerUniqueId, in.IssuerUniqueId, "Merge changed the issuer unique id")
+	same(out.SubjectUniqueId, in.SubjectUniqueId, "Merge changed the subject unique id")
+	vAssert(out.Alias == in.Alias && out.Profile == in.Profile && out.Issuer == in.Issuer, "Merge changed alias, profile name or issuer")
+	vAssert(out.SerialNumber == in.SerialNumber, "Merge changed the serial number")
+	vAssert(out.KeyAlgorithm == in.KeyAlgorithm && out.SignatureAlgorithm == in.SignatureAlgorithm, "Merge changed the key or signature algorithm")
+	vAssert(len(out.Subject) == 1 && len(out.Subject[0]) == 1 && out.Subject[0][0].Value == "x", "Merge changed the subject")
+	vAssert(out.Manipulations.Version == in.Manipulations.Version && out.Manipulations.SignatureValue == in.Manipulations.SignatureValue &&
+		out.Manipulations.TbsPublicKey == in.Manipulations.TbsPublicKey && out.Manipulations.SignatureAlgorithm == in.Manipulations.SignatureAlgorithm &&
+		out.Manipulations.TbsSignature == nil && out.Manipulations.TbsPublicKeyAlgorithm == nil, "Merge changed the manipulations")
+	// the input as the caller still holds it
+	vAssert(len(content.IssuerUniqueId.Bytes) == len(iu) && vBytesEq(content.IssuerUniqueId.Bytes, iu) &&
+		len(content.SubjectUniqueId.Bytes) == len(su) && vBytesEq(content.SubjectUniqueId.Bytes, su), "Merge modified the unique ids of the configuration it was given")
 }
